@@ -2,6 +2,7 @@
   Rtp/Proofs/AV1RT.lean — putting the send side and the two receive sides together.
 -/
 import Rtp.Proofs.AV1Walk
+import Rtp.Proofs.AV1PaySim
 import Rtp.Proofs.AV1DepackRT
 import Rtp.Proofs.AV1FramesRT
 namespace Rtp.Model.AV1
@@ -156,7 +157,7 @@ theorem rt_pred (hleb : LebGoSpec) (mtu : UInt16) (hm : 2 ≤ mtu.toNat) (obus :
     simp only [depFeed_length', List.length_map] at this
     exact this.symm
   unfold Pred.C13.rt rtObs
-  rw [payload_eq mtu _ hm]
+  rw [AV1B.payloadB_eq, payload_eq mtu _ hm]
   simp only [Bool.not_false, Bool.true_and, Pred.C13.rtWF, hm, decide_true, hwf, Bool.and_self,
     Bool.not_true, Bool.false_or, hrules, hden, BEq.rfl, List.length_map, hfr, hbytes,
     depFeed_length', hd1, okBytes_map_ok, Option.map_some, hd2, hsized, zip_map_all]
